@@ -31,6 +31,8 @@ RULE = (
     "training set is not the complement of the test set, and the default (cv=None), all behind a recording proxy; scorers None, r2, neg MSE / "
     "RMSE / MAE and a harness callable. Every cross_val_score case runs serially and as dask.delayed under 8 schedules (synchronous; threads "
     "with 2/4/16 workers and switch interval 1e-5; reversed and random submission order; one score at a time, synchronous and threaded). "
+    "Cross-validators and train_test_split are driven with random_state as an int, a numpy RandomState instance and None (global generator, "
+    "re-seeded so that serial / delayed / respelled replays are well defined); the splits judged are those the cv object actually yielded. "
     "Equivalent spellings are exercised and must agree: a metric as None / string / get_scorer / make_scorer object / plain callable; cv as a "
     "recording proxy (generator or list) or the bare scikit-learn / verde instance (splits replayed); weights None or a tuple of None; dampings "
     "/ mindists as list / tuple / ndarray of float / numpy.float64 / int / numpy.int64; delayed as True / numpy.True_ / 1; test_size / spacing "
@@ -83,6 +85,9 @@ FLOORS = {
                      "class:splinecv:engine:numpy": 1, "class:splinecv:scoring_with_weights": 2, "class:splinecv:several_mindists": 1,
                      "class:delayed_spelling:bool": 2},
                   **{"class:scoring_spelling:" + k: 4 for k in ("none", "string", "get_scorer", "make_scorer", "plain_callable")},
+                  # kind of random_state (int | RandomState instance | None = numpy's global generator, re-seeded for the replay)
+                  **{"class:random_state:tts:%s:%s" % (k, m): 4 for k in W.RS_KINDS for m in ("plain", "blocked")},
+                  **{"class:random_state:cv:" + k: 5 for k in W.RS_KINDS},
                   # train_test_split sizes through **kwargs: neither / test_size / train_size / both, float and int, plain and blocked
                   **{"class:tts_sizes:%s:%s" % (m, k): 1 for m in ("plain", "blocked") for k in W.SIZE_MODES}, **{"eval:split_sizes": 20},
                   # memory layouts of the 2-D gridded datasets (each array draws its layout independently)
@@ -103,6 +108,8 @@ FLOORS = {
         **{"schedule:" + s: 640 for s in W.SCHEDULES},
         **{"eval:score_vs_flat_reference": 960, "eval:cv_sees_rows_in_split_order": 2290},
         **{"class:tts_sizes:%s:%s" % (m, k): 68 for m in ("plain", "blocked") for k in W.SIZE_MODES}, **{"eval:split_sizes": 800},
+        **{"class:random_state:tts:%s:%s" % (k, m): 160 for k in W.RS_KINDS for m in ("plain", "blocked")},
+        **{"class:random_state:cv:" + k: 200 for k in W.RS_KINDS},
         # equivalent spellings and SplineCV option combinations (about 40 percent of the minimum over seeds 10 and 11)
         **{"eval:equivalent_spellings_agree": 580,
            "eval:tts_equivalent_spellings_agree": 960,
@@ -183,7 +190,7 @@ def run_case(run, tap, stream, index, rng):
         warnings.simplefilter("ignore")
         try:
             if stream == "cv":
-                W.case_cv(run, rng, vd)
+                W.case_cv(run, rng, vd, index=index)
             elif stream == "score":
                 W.case_score(run, rng, vd)
             elif stream == "tts":
